@@ -1,6 +1,10 @@
 (* C09 property theorems. This file contains only statements closed by
    [exact lemma] and Print Assumptions. *)
-From V Require Import Common.Base C09.Cache C09.CacheProofs.
+From V Require Import Common.Base C09.Cache C09.CacheProofs C09.OptionFields C09.OptionFieldsProofs.
+From V Require Import gen.OptionFieldsGen.
+Require Import Coq.Strings.String.
+Open Scope string_scope.
+Open Scope Z_scope.
 
 (* JSCache/CSSCache/JSONCache: if the source comparison is equality and the
    option comparison is sound for the parser, then over EVERY history of calls
@@ -47,3 +51,61 @@ Theorem rebuild_eq_fresh :
       = map (fun wb => run_fresh parse (fst wb) (snd wb)) steps.
 Proof. exact rebuild_eq_fresh_all. Qed.
 Print Assumptions rebuild_eq_fresh.
+
+(* ---- option-field coverage over translator T3's regenerated inventory ----
+
+   Full statement (every field of js_parser.Options that the parser package
+   reads is compared by Options.Equal or is on the justified list):
+       equal_covers js_irrelevant js_option_fields = true
+   It is FALSE of the pinned source (finding C, DESIGN section 7-C): *)
+Theorem equal_covers_all_fields_refuted :
+  exists f, In f js_option_fields /\ of_read f = true /\ of_set f = true /\
+            is_compared (of_cmp f) = false /\ ~ In (of_name f) js_irrelevant.
+Proof. exact js_covers_refuted. Qed.
+Print Assumptions equal_covers_all_fields_refuted.
+
+(* the strongest part that holds: the uncovered fields are exactly the five
+   JSX fields of finding C, nothing else (a newly dropped comparison breaks
+   this theorem) *)
+Theorem equal_covers_all_fields_partial :
+  uncovered js_irrelevant js_option_fields = known_gap_C /\
+  equal_covers (js_irrelevant ++ known_gap_C) js_option_fields = true.
+Proof. exact (conj js_uncovered_exact js_covers_partial). Qed.
+Print Assumptions equal_covers_all_fields_partial.
+
+(* the gap defeats the memo table: a parser reading only fields the real
+   parser reads, two option values Equal cannot tell apart, a stale result *)
+Theorem jsx_gap_breaks_memo_refuted :
+  reads_only Z Z gap_parse js_option_fields js_irrelevant /\
+  table_equal js_option_fields gap_o gap_o' = true /\
+  run_memo (fun s => s) Z.eqb (table_equal js_option_fields) gap_parse [] [(7, gap_o); (7, gap_o')]
+    <> [gap_parse 7 gap_o; gap_parse 7 gap_o'].
+Proof. exact js_gap_breaks_memo. Qed.
+Print Assumptions jsx_gap_breaks_memo_refuted.
+
+(* css_parser.Options and js_parser.JSONOptions are fully covered, and all
+   three caches compare the source as well *)
+Theorem css_equal_covers_all_fields : equal_covers [] css_option_fields = true.
+Proof. exact css_covers. Qed.
+Print Assumptions css_equal_covers_all_fields.
+
+Theorem json_equal_covers_all_fields : equal_covers [] json_option_fields = true.
+Proof. exact json_covers. Qed.
+Print Assumptions json_equal_covers_all_fields.
+
+Theorem all_caches_compare_source : caches_comparing_source = ["CSSCache"; "JSCache"; "JSONCache"]%string.
+Proof. exact caches_compare_source. Qed.
+Print Assumptions all_caches_compare_source.
+
+(* why coverage matters: for ANY inventory and ANY parser that depends only on
+   the fields marked read, a clean coverage check gives the soundness
+   hypothesis of memo_transparent, hence transparency over every history *)
+Theorem coverage_implies_memo_transparent :
+  forall (S R : Type) (parse : S -> oassign -> R) (fs : list ofield) (irr : list string)
+         (key_of : S -> Z) (src_eqb : S -> S -> bool),
+    (forall a b, src_eqb a b = true -> a = b) ->
+    equal_covers irr fs = true -> reads_only S R parse fs irr ->
+    forall calls, run_memo key_of src_eqb (table_equal fs) parse [] calls
+                  = map (fun c => parse (fst c) (snd c)) calls.
+Proof. exact covered_table_memo_transparent. Qed.
+Print Assumptions coverage_implies_memo_transparent.
